@@ -205,12 +205,14 @@ fn worker(batch: &str, o: &Opts, out: &mut dyn FnMut(String)) {
             // large frames through the encoder (special values and unit cube), every matrix, 8 and 16 bit
             let bigcube: Vec<[f32; 3]> = cube.iter().cycle().take(701 * 523).copied().collect();
             let bigunit = unit_cube(&mut rng, 701 * 523);
-            for (mi, &m) in MC_STD.iter().enumerate() {
-                for (st, n) in [(8u8, 8u8), (16, 16), (16, 13)] {
-                    let c = Cfg { mc: m, tc: 1, cp: 1, full: mi % 2 == 0, n, ssx: 0, ssy: 0 };
+            for &m in MC_STD.iter() {
+                for (st, n, full) in [(8u8, 8u8, false), (8, 8, true), (16, 16, false), (16, 16, true), (16, 13, true), (16, 13, false), (16, 10, true), (16, 10, false)] {
+                    let c = Cfg { mc: m, tc: 1, cp: 1, full, n, ssx: 0, ssy: 0 };
                     for (name, px) in [("bigcube", &bigcube), ("unit", &bigunit)] {
-                        // a large frame, a smaller (still large) one, the large one again: buffers reused across calls must cope
-                        for (w, h) in [(701usize, 523usize), (401, 263), (701, 523), (257, 257)] {
+                        // a large frame, a smaller (still large) one, the large one again (buffers reused across calls must cope), then
+                        // widths that make the planes exactly contiguous (multiples of 32 / 64 samples)
+                        let sizes: &[(usize, usize)] = if o.thorough { &[(701, 523), (401, 263), (701, 523), (257, 257), (640, 480), (1024, 288)] } else if n == 16 || n == 8 { &[(701, 523), (401, 263), (701, 523), (640, 480)] } else { &[(640, 480), (1024, 288)] };
+                        for &(w, h) in sizes {
                             let px = &px[..w * h];
                             let mut s = format!("\"ev\":\"total\",\"stage\":\"enc\",\"cfg\":{},\"st\":{st},\"input\":\"{name}\",\"npx\":{},\"w\":{w},\"h\":{h},\"divisible\":1,", c.json(), px.len());
                             run_guarded(&mut s, |b| if st == 8 { enc::<u8>(px, w, h, &c, b) } else { enc::<u16>(px, w, h, &c, b) });
